@@ -91,12 +91,13 @@ def job(payload):
         b = t if isinstance(t, bytes) else t.encode("latin-1")
         out["n"] += 1
         hexq = b.hex()
+        tmo = 20 + len(b) // 150
         for attempt in (0, 1):
             try:
-                r = d.req("run q=%s in= max=50 fuel=20000" % hexq, timeout=20)
+                r = d.req("run q=%s in= max=50 fuel=20000" % hexq, timeout=tmo)
                 judge(r, b, out, "parse_len+execute")
                 if rng.random() < 0.3 and b"\0" not in b:
-                    r2 = d.req("parse q=%s cstr=1" % hexq, timeout=20)
+                    r2 = d.req("parse q=%s cstr=1" % hexq, timeout=tmo)
                     out["cstr"] += 1
                     if r2.get("evbad"):
                         out["bad"].append(("api-contract", dict(text=repr(b)[:300], where="zw_query_parse", ev=r2["ev"])))
@@ -105,8 +106,8 @@ def job(payload):
                 if rng.random() < 0.3 and len(b) > 1:
                     # explicit length shorter than the buffer: must behave exactly like the prefix alone
                     ln = rng.randrange(len(b))
-                    r3 = d.req("run q=%s len=%d in= max=50 fuel=20000" % (hexq, ln), timeout=20)
-                    r4 = d.req("run q=%s in= max=50 fuel=20000" % b[:ln].hex(), timeout=20)
+                    r3 = d.req("run q=%s len=%d in= max=50 fuel=20000" % (hexq, ln), timeout=tmo)
+                    r4 = d.req("run q=%s in= max=50 fuel=20000" % b[:ln].hex(), timeout=tmo)
                     out["shortlen"] += 1
                     if r3.get("evbad"):
                         out["bad"].append(("api-contract", dict(text=repr(b)[:300], where="short length", ev=r3["ev"])))
@@ -245,9 +246,14 @@ def job_cli(payload):
         else:
             argv = [exe, b]
         try:
-            p = subprocess.run(argv, stdout=subprocess.PIPE, stderr=subprocess.PIPE, env=env, timeout=60)
+            tmo = 60 + len(b) // 100
+            try:
+                p = subprocess.run(argv, stdout=subprocess.PIPE, stderr=subprocess.PIPE, env=env, timeout=tmo)
+            except subprocess.TimeoutExpired:
+                # a watchdog firing on a loaded machine decides nothing: once more, alone-ish and with a longer leash
+                p = subprocess.run(argv, stdout=subprocess.PIPE, stderr=subprocess.PIPE, env=env, timeout=4 * tmo)
         except subprocess.TimeoutExpired:
-            out["bad"].append(("cli-hang", dict(text=repr(b)[:300], how=how)))
+            out["bad"].append(("cli-hang", dict(text=repr(b)[:300], how=how, watchdog_s=4 * tmo)))
             continue
         finally:
             if tmp:
@@ -294,7 +300,7 @@ def run(chk):
             t = '"%( ' + t + ' %)"'
         return t
     for kind in ("sub", "block", "if", "or", "infix", "scope", "let", "apply", "splice"):
-        for n in (30, 95, 105, 240, 340, 520, 1100, 2500):
+        for n in (30, 95, 105, 240, 340, 520, 1100):
             fixed.append(nest(kind, n).encode())
     fixed += [b'"%( ' + b"(" * 12000 + b"1" + b")" * 12000 + b' %)"', b"1 " * 9000 + b'"%( ' + b"2 " * 9000 + b' %)"', b"{" * 6000 + b"}" * 6000, b"1 drop " * 6000 + b"1",
               b"let A := " * 4000 + b"1" + b" ;" * 4000, b"-" * 20000 + b"1", b"1" * 30000, b'"' + b"a" * 100000 + b'"', b"/*" + b"x" * 100000 + b"*/ 1", b"?" * 10000, b"1 " + b"*" * 20000]
@@ -327,7 +333,8 @@ def run(chk):
         "cli_invocations": tot.get("cli", 0), "cli_invocations_expected_status_2": tot.get("cli_status2", 0),
         "samples": samples[:6],
     })
-    chk.assumptions += ["hang = no reply within a 20 s watchdog twice in a row for a query of at most 300 bytes executed under a 20000-step budget"]
+    chk.assumptions += ["hang = no reply within the watchdog twice in a row (driver: 20 s + 1 s per 150 bytes of text; CLI: 60 s + 1 s per 100 bytes, then four times that); "
+                        "execution is bounded by a 20000-step budget; parsing of nested constructs is quadratic in the nesting depth"]
     if tot.get("rejected", 0) < 1000 or tot.get("cli", 0) < 100:
         chk.inconc("too few events")
 
